@@ -13,7 +13,7 @@ from vlib import *
 
 DIAL = {"plaintext": "plaintext", "tlsnocert": "tls-nocert", "selfsignedc1": "selfsigned-c1", "othercac1": "otherca-c1", "othercasigner2": "otherca-signer-2", "publiccac1": "publicca-c1", "publiccasigner2": "publicca-signer-2",
         "expiredc1": "expired-c1", "ticketothercac1": "ticket-otherca-c1", "ticketothercasigner2": "ticket-otherca-signer-2", "validc1": "valid-c1", "validc2": "valid-c2", "validnobody": "valid-nobody", "validsigner2": "valid-signer-2",
-        "validc2sanc1": "valid-c2~san-c1", "validnobodysansigner2": "valid-nobody~san-signer-2", "validupperc1": "valid-C1",
+        "validc2sanc1": "valid-c2~san-c1", "validnobodysansigner2": "valid-nobody~san-signer-2", "validupperc1": "valid-C1", "validc1dotted": "valid-c1.partner.example", "validc1trailingdot": "valid-c1.", "validsigner2dotted": "valid-signer-2.partner.example",
         "validc2plusselfsignedc1": "valid-c2+selfsigned-c1", "validc2plusothercac1": "valid-c2+otherca-c1",
         "validc1plusselfsignedsigner2": "valid-c1+selfsigned-signer-2",
         "validc2afterc1": "valid-c2@after-valid-c1", "validc1afterc2": "valid-c1@after-valid-c2", "validnobodyaftersigner2": "valid-nobody@after-valid-signer-2"}
